@@ -71,7 +71,8 @@ def run(ctx):
     if os.path.exists(fviol):
         for l in read_lines(fviol)[:10]:
             ctx.report("property violated by the implementation (handlePkt): " + l[:600], {"finding": l,
-                       "replay": "VERIF_SEED=%d ./check C06 %s" % (ctx.seed, ctx.tier)})
+                       "replay": "VERIF_SEED=%d ./check C06 %s" % (ctx.seed, ctx.tier)},
+                       key="c06-udp-withheld-stranded-by-other-connection" if l.startswith("two QUIC connections") else None)
     fstats = json.load(open(os.path.join(ctx.out, "c06flow.stats.json")))
     opl = read_lines(ops)
     flow_ops = read_lines(fops)
